@@ -7,6 +7,7 @@ Script-level ops (script/sfmt/sreparse/dot/ptick/pjson) have no model: they are 
 -/
 import Kap.Basic
 import Kap.Model.C13
+import Kap.Model.C13Prog
 import Kap.Spec.C13
 open Kap Kap.C13 Kap.C13.Gen
 
@@ -86,6 +87,38 @@ partial def branches : Expr → List String
       | _ => []) ++ branches l ++ branches r
   | .call _ args => (if args.isEmpty then "call-0" else "call-n") :: (args.map branches).flatten
 
+mutual
+partial def redump : Spec.T → List String
+  | .node "program" _ ks =>
+    let ks' := ks.filter (fun k => !Spec.isComment k)
+    "program" :: toString ks'.length :: redumps ks'
+  | .node tag fs ks => tag :: fs ++ redumps ks
+partial def redumps : List Spec.T → List String
+  | [] => []
+  | k :: ks => redump k ++ redumps ks
+end
+
+/-- observed program dump without the comment nodes (the token view has no comments) -/
+def stripComments (d : List String) : Option (List String) := (Spec.readDump d).map redump
+
+def progBranches (p : Program) : List String :=
+  let stmt : Stmt → List String
+    | .decl _ (.chain _ _) => ["decl-chain"]
+    | .decl _ (.arg (.lambda _)) => ["decl-lambda"]
+    | .decl _ (.arg (.list _)) => ["decl-list"]
+    | .decl _ (.arg (.expr _)) => ["decl-expr"]
+    | .typeDecl _ _ => ["typedecl"]
+    | .dbrp _ _ => ["dbrp"]
+    | .expr (.chain _ ls) =>
+      "stmt-chain" :: (ls.map (fun l => match l.op, l.args with
+        | .pipe, _ => "link-pipe" | .dot, some _ => "link-property" | .dot, none => "link-property-ident"
+        | .at, _ => "link-udf")) ++
+      (ls.map (fun l => match l.args with
+        | some as => as.map (fun a => match a with | .lambda _ => "arg-lambda" | .list _ => "arg-list" | .expr _ => "arg-expr")
+        | none => [])).flatten
+    | .expr (.arg _) => ["stmt-expr"]
+  (p.map stmt).flatten
+
 def statusOf {α} : Res α → String
   | .ok _ => "ok"
   | .err => "err"
@@ -100,6 +133,8 @@ structure St where
   nt : Bool := false
   mism : Option String := none
   afterPtick : Bool := false
+  curP : Res Program := .err
+  progOff : Option String := none      -- statement-level model said "not covered"
 
 def addBr (st : St) (bs : List String) : St :=
   { st with br := bs.foldl (fun acc b => if acc.contains b then acc else b :: acc) st.br }
@@ -112,6 +147,39 @@ def treeEv (via : String) (obs : List String) : Option Spec.Ev :=
   | _ => none
 
 def noteMism (st : St) (d : String) : St := if st.mism.isSome then st else { st with mism := some d }
+
+/-- compare the statement-level model's parse with the observation of a program-producing op -/
+def cmpProg (st : St) (what : String) (obs : List String) : St :=
+  match st.progOff with
+  | some _ => st
+  | none =>
+    match st.curP with
+    | .na w =>
+      if w == "fuel" || w == "lexer-fuel" then noteMism st s!"{what}: program model ran out of fuel"
+      else { addBr st ["prog-na:" ++ w] with progOff := some w }
+    | .err => if obs == ["err"] then addBr st ["prog-parse-err"] else noteMism st s!"{what}: program model err, observed {obs.take 8}"
+    | .ok p =>
+      match obs with
+      | "ok" :: d =>
+        match stripComments d with
+        | some d' =>
+          if d' == dumpProgram p then addBr st ("prog-model" :: progBranches p)
+          else noteMism st s!"{what}: program model {(dumpProgram p).take 40} observed {d'.take 40}"
+        | none => noteMism st s!"{what}: unreadable dump"
+      | _ => noteMism st s!"{what}: program model ok, observed {obs.take 4}"
+
+/-- the formatted text, token by token (layout-independent), against the model's `fmtProgram` -/
+def cmpProgText (st : St) (txt : String) : St :=
+  match st.progOff, st.curP with
+  | none, .ok p =>
+    match (lex txt.toList).bind decodeAll with
+    | .ok ts =>
+      if ts == fmtProgram p then addBr st ["prog-fmt-tokens"]
+      else noteMism st s!"sfmt: tokens of the formatted text differ from fmtProgram: {repr (ts.take 12)} / {repr ((fmtProgram p).take 12)}"
+    | .err => noteMism st "sfmt: model lexer rejects the formatted text"
+    | .na w => { addBr st ["prog-na:" ++ w] with progOff := some w }
+  | _, _ => st
+
 
 /-- compare a model tree result with the observation of a tree-producing op -/
 def cmpTree (st : St) (what : String) (obs : List String) : St :=
@@ -184,7 +252,8 @@ def judge (_id : String) (lines : Array String) : Verdict := Id.run do
     | ["script", src] =>
       let some ev := treeEv "script" obs | return .badop l
       let some ss := unesc src | return .badop l
-      st := addBr { st with evs := (st.evs.push (.source ss)).push ev, modelOff := some "script" } ["script"]
+      st := addBr { st with evs := (st.evs.push (.source ss)).push ev, modelOff := some "script", curP := parseProgram ss } ["script"]
+      st := cmpProg st "script" obs
     | ["sfmt"] =>
       match obs with
       | ["panic"] => st := { st with evs := st.evs.push (.panic "sfmt") }
@@ -193,10 +262,13 @@ def judge (_id : String) (lines : Array String) : Verdict := Id.run do
         let some s := unesc t | return .badop l
         if (s.splitOn "//").length > 1 then st := addBr st ["script-comments"]
         st := { st with evs := st.evs.push (.text "sfmt" s) }
+        st := cmpProgText st s
+        st := { st with curP := parseProgram s }
       | _ => return .badop l
     | ["sreparse"] =>
       let some ev := treeEv "sreparse" obs | return .badop l
       st := { st with evs := st.evs.push ev }
+      st := cmpProg st "sreparse" obs
     | [op, _edge] =>
       if op == "dot" || op == "pjson" then
         match obs with
